@@ -165,11 +165,18 @@ def parse_output(out):
 
 def concrete_playback(crate, harness, cap_s, mem_gb=10, rustflags=None, extra_args=()):
     """Re-run a failing harness asking Kani to print a concrete-playback unit test.
-    Returns the generated test source (str) or None."""
+    Returns the list of generated test sources (possibly empty)."""
     crate_dir = os.path.join(VERIF, crate)
     target = os.path.join(BUILD, crate)
+    # --no-slice-formula: keep every kani::any() in the trace, otherwise values that do not influence
+    # the failing check are omitted from the playback test and all later values shift
+    extra = list(extra_args)
+    pre = [a for a in extra if a != "--cbmc-args" and extra.index(a) < (extra.index("--cbmc-args") if "--cbmc-args" in extra else len(extra))]
+    post = extra[extra.index("--cbmc-args"):] if "--cbmc-args" in extra else []
+    if "unstable-options" not in pre:
+        pre = ["-Z", "unstable-options"] + pre
     cmd = ["cargo", "kani", "-Z", "stubbing", "-Z", "concrete-playback", "--concrete-playback=print",
-           "--harness", harness, "--exact", "--target-dir", target] + list(extra_args)
+           "--harness", harness, "--exact", "--target-dir", target] + pre + ["--no-slice-formula"] + post
     os.makedirs(os.path.join(BUILD, "logs"), exist_ok=True)
     log = os.path.join(BUILD, "logs", harness.replace("::", "__") + ".playback.log")
     with open(log, "w") as lf:
@@ -183,9 +190,18 @@ def concrete_playback(crate, harness, cap_s, mem_gb=10, rustflags=None, extra_ar
             except ProcessLookupError:
                 pass
             p.wait()
-            return None
+            return []
     out = open(log, errors="replace").read()
-    m = re.search(r"```\n(/// Test generated for harness.*?)```", out, re.S)
-    if not m:
-        m = re.search(r"(#\[test\]\nfn kani_concrete_playback_.*?\n}\n)", out, re.S)
-    return m.group(1) if m else None
+    # Kani prints one playback test per failed check (artefact checks included), in no documented
+    # order: return all distinct ones, the caller keeps the one that reproduces natively
+    tests = re.findall(r"```\n(/// Test generated for harness.*?)```", out, re.S)
+    if not tests:
+        tests = re.findall(r"(#\[test\]\nfn kani_concrete_playback_.*?\n}\n)", out, re.S)
+    seen, uniq = set(), []
+    for t in tests:
+        tn = re.search(r"fn (kani_concrete_playback_\w+)\(", t)
+        key = tn.group(1) if tn else t
+        if key not in seen:
+            seen.add(key)
+            uniq.append(t)
+    return uniq
